@@ -500,6 +500,6 @@ def run(ctx):
     rule_fileref(ctx, py)
     rule_dispatch(ctx, py)
     ctx.analysed["package"] = {"modules": len(py.mods), "functions": py.nfuncs}
-    from .. import truth
-    truth.rule(ctx, "C12.TRUTH", ctx.py, ["filepath", "rdoutput"], floor=12)
+    from .. import lints
+    lints.run(ctx, "C12", ctx.py, ["filepath", "rdoutput"], truth_floor=12)
     ctx.assume("equality of content after a round trip (values, unit conversion of printed quantities) is not decided")
